@@ -4,6 +4,8 @@ draw-based: `build_program(draw, profile)` where draw is Hypothesis' draw functi
 Profiles bias the generator towards what a property needs (C01 spaces, C02 data edges, C16 AGAIN,
 C23 key spaces, C05 remote edges).
 """
+import os
+
 from hypothesis import strategies as st
 
 from ptggen import Dim, Edge, Flow, Program, TaskClass, subst
@@ -93,8 +95,10 @@ class Builder:
         fl = Flow(name, acc)
         if acc == "RW":
             fl.default_src = "D:" + self.key_expr("D", ci_future, ndims)
-        elif acc == "READ":
+        elif acc == "READ" and not self.profile.get("ranks"):
             fl.default_src = "D:(%d*i0+%d)%%%d" % (draw(sint(1, 3)), draw(sint(0, 3)), self.prog.ntd_ro)
+        elif acc == "READ":
+            fl.default_src = "D:" + self.key_expr("D", ci_future, ndims)
         else:
             fl.default_src = "NEW"
         return fl
@@ -103,6 +107,19 @@ class Builder:
         if fl.access == "CTL":
             return
         if self.draw(sint(0, 2)) > 0:
+            cg = getattr(self, "chain_guard", {}).get((ci, fl.name))
+            if cg is not None and self.draw(st.booleans()):
+                # only the last element of an RW chain writes back (the usual PTG idiom): no successor can race with the copy
+                fl.sink = "E:" + self.key_expr("E", ci, len(self.prog.classes[ci].dims))
+                fl.sink_guard = "!(%s)" % cg
+                self.prog.features.add("sink")
+                self.prog.features.add("guarded_sink")
+                return
+            if self.consumers.get((ci, fl.name)) == "RW" and not os.environ.get("PTG_INCLUDE_KNOWN"):
+                # known finding C02-K1: the write-back to a collection is an asynchronous memcpy that races with a local
+                # RW successor modifying the same copy in place; excluded by construction (counted through the feature label)
+                self.prog.features.add("excluded_known_sink_plus_rw_successor")
+                return
             fl.sink = "E:" + self.key_expr("E", ci, len(self.prog.classes[ci].dims))
             self.prog.features.add("sink")
 
@@ -115,6 +132,8 @@ class Builder:
             have = self.consumers.get((ci, fl.name))
             if have == "RW":
                 continue
+            if want_rw and fl.access not in ("RW", "WRITE"):
+                continue        # a READ flow's copy may be shared: never hand it to a consumer that writes
             if want_rw and have is not None:
                 continue
             res.append(fl)
@@ -181,7 +200,7 @@ def build_program(draw, profile):
             dims = new_dims(draw, profile, nds, cnt0=newc0, cnt1=scls.dims[1].cnt if nds == 2 else None)
             fl = Flow("A", acc)
             # instances not covered by the shifted producer read from D
-            if acc == "RW":
+            if acc == "RW" or profile.get("ranks"):
                 fl.default_src = "D:" + b.key_expr("D", ci, nds)
             else:
                 fl.default_src = "D:(i0+%d)%%%d" % (draw(sint(0, 3)), prog.ntd_ro)
@@ -257,6 +276,9 @@ def build_program(draw, profile):
                 g_b = "j%d >= 1" % d
             prog.edges.append(Edge(ci, "C", ci, "C", [(g_f, up)], [(g_b, dn)], kind="chain"))
             b.consumers[(ci, "C")] = "RW"
+            if not hasattr(b, "chain_guard"):
+                b.chain_guard = {}
+            b.chain_guard[(ci, "C")] = g_f
             prog.features.add("chain")
     # ---- sinks
     for ci, cls in enumerate(prog.classes):
